@@ -736,3 +736,147 @@ Section Raw.
       rewrite Forall_forall in *. intros y Hy. apply F1. apply in_map, Hy.
   Qed.
 End Raw.
+
+(* ------------------------------------------------------------------ concrete base58check texts order like their payloads *)
+Section Concrete.
+  Local Open Scope N_scope.
+
+  (* comparing two numbers written in a positional system: the leading digit decides, then the rest *)
+  Lemma pos_cmp B q r q' r' : r < B -> r' < B ->
+    (q * B + r ?= q' * B + r') = match q ?= q' with Eq => r ?= r' | c => c end.
+  Proof.
+    intros Hr Hr'. destruct (N.compare_spec q q') as [E|L|G].
+    - subst. destruct (N.compare_spec r r') as [E|L|G]; [subst; apply N.compare_refl | |].
+      + apply N.compare_lt_iff. lia.
+      + apply N.compare_gt_iff. lia.
+    - apply N.compare_lt_iff. assert ((q + 1) * B <= q' * B) by (apply N.mul_le_mono_r; lia). lia.
+    - apply N.compare_gt_iff. assert ((q' + 1) * B <= q * B) by (apply N.mul_le_mono_r; lia). lia.
+  Qed.
+
+  (* the alphabet is in increasing ASCII order *)
+  Definition digits58 : list N := map N.of_nat (seq 0 58).
+
+  Lemma char_mono_all :
+    forallb (fun d => forallb (fun e =>
+      match Byte.to_N (b58_char d) ?= Byte.to_N (b58_char e), d ?= e with
+      | Eq, Eq | Lt, Lt | Gt, Gt => true | _, _ => false end) digits58) digits58 = true.
+  Proof. vm_compute. reflexivity. Qed.
+
+  Lemma in_digits58 d : d < 58 -> In d digits58.
+  Proof.
+    intro H. unfold digits58. apply in_map_iff. exists (N.to_nat d). split; [apply N2Nat.id|].
+    apply in_seq. lia.
+  Qed.
+
+  Lemma char_mono d e : d < 58 -> e < 58 ->
+    (Byte.to_N (b58_char d) ?= Byte.to_N (b58_char e)) = (d ?= e).
+  Proof.
+    intros Hd He. pose proof char_mono_all as A. rewrite forallb_forall in A.
+    specialize (A d (in_digits58 d Hd)). rewrite forallb_forall in A. specialize (A e (in_digits58 e He)).
+    destruct (Byte.to_N (b58_char d) ?= Byte.to_N (b58_char e)), (d ?= e); try reflexivity; discriminate.
+  Qed.
+
+  Lemma b58_fixed_order len : forall n m, n < 58 ^ N.of_nat len -> m < 58 ^ N.of_nat len ->
+    lex_cmp (b58_fixed len n) (b58_fixed len m) = (n ?= m).
+  Proof.
+    induction len as [|l IH]; intros n m Hn Hm.
+    - simpl in *. assert (n = 0) by lia. assert (m = 0) by lia. subst. reflexivity.
+    - rewrite Nat2N.inj_succ, N.pow_succ_r' in Hn, Hm.
+      set (B := 58 ^ N.of_nat l) in *.
+      assert (HB : 0 < B) by (apply N.neq_0_lt_0, N.pow_nonzero; discriminate).
+      cbn [b58_fixed]. fold B. cbn [lex_cmp].
+      assert (Q : n / B < 58) by (apply N.div_lt_upper_bound; lia).
+      assert (Q' : m / B < 58) by (apply N.div_lt_upper_bound; lia).
+      assert (R : n mod B < B) by (apply N.mod_lt; lia).
+      assert (R' : m mod B < B) by (apply N.mod_lt; lia).
+      rewrite char_mono by assumption. rewrite IH by assumption.
+      rewrite (N.div_mod n B) at 3 by lia. rewrite (N.div_mod m B) at 3 by lia.
+      rewrite (N.mul_comm B (n / B)), (N.mul_comm B (m / B)).
+      symmetry. apply pos_cmp; assumption.
+  Qed.
+
+  Lemma nb_lt l : nb l < 256 ^ N.of_nat (length l).
+  Proof.
+    induction l as [|x l IH]; simpl length; [simpl; lia|].
+    rewrite Nat2N.inj_succ, N.pow_succ_r'. cbn [nb]. pose proof (to_N_lt_256 x).
+    assert ((Byte.to_N x + 1) * 256 ^ N.of_nat (length l) <= 256 * 256 ^ N.of_nat (length l))
+      by (apply N.mul_le_mono_r; lia). lia.
+  Qed.
+
+  Lemma nb_order a : forall b, length a = length b -> (nb a ?= nb b) = lex_cmp a b.
+  Proof.
+    induction a as [|x a IH]; intros [|y b] L; try discriminate; [reflexivity|].
+    injection L as L. cbn [nb lex_cmp]. rewrite L.
+    rewrite pos_cmp; [|rewrite <- L; apply nb_lt | apply nb_lt].
+    rewrite (IH b L). reflexivity.
+  Qed.
+
+  Lemma nb_app a b : nb (a ++ b) = nb a * 256 ^ N.of_nat (length b) + nb b.
+  Proof.
+    induction a as [|x a IH]; [simpl; lia|].
+    cbn [app nb]. rewrite IH, app_length, Nat2N.inj_add, N.pow_add_r. lia.
+  Qed.
+
+  Lemma lex_cmp_app a : forall a' b b', length a = length a' ->
+    lex_cmp (a ++ b) (a' ++ b') = then_cmp (lex_cmp a a') (lex_cmp b b').
+  Proof.
+    induction a as [|x a IH]; intros [|y a'] b b' L; try discriminate; [reflexivity|].
+    injection L as L. simpl. destruct (Byte.to_N x ?= Byte.to_N y); try reflexivity. apply IH, L.
+  Qed.
+
+  Variable ck : bytes -> bytes.
+  Hypothesis ck_len : forall b, length (ck b) = 4%nat.
+
+  Lemma kh_prefix_order c c' : lex_cmp (kh_prefix c) (kh_prefix c') = (curve_idx c ?= curve_idx c').
+  Proof. destruct c, c'; reflexivity. Qed.
+
+  Lemma kh_number_bound c h : length h = 20%nat ->
+    nb ((kh_prefix c ++ h) ++ ck (kh_prefix c ++ h)) < 58 ^ 36.
+  Proof.
+    intro L. rewrite <- app_assoc, nb_app.
+    pose proof (nb_lt (h ++ ck (kh_prefix c ++ h))) as X.
+    rewrite app_length, L, ck_len in *. simpl Nat.add in *.
+    assert (P : nb (kh_prefix c) <= 434598) by (destruct c; vm_compute; discriminate).
+    assert (C : 434599 * 256 ^ N.of_nat 24 <= 58 ^ 36) by (vm_compute; discriminate).
+    assert ((nb (kh_prefix c) + 1) * 256 ^ N.of_nat 24 <= 434599 * 256 ^ N.of_nat 24)
+      by (apply N.mul_le_mono_r; lia). lia.
+  Qed.
+
+  (* key hashes: the text order IS the (scheme, hash) order — the law [kh_order] of texts_ok *)
+  Lemma kh_text_order c h c' h' : length h = 20%nat -> length h' = 20%nat ->
+    lex_cmp (kh_text ck c h) (kh_text ck c' h') = then_cmp (curve_idx c ?= curve_idx c') (lex_cmp h h').
+  Proof.
+    intros L L'. unfold kh_text.
+    rewrite (b58_fixed_order 36) by (apply kh_number_bound; assumption).
+    rewrite nb_order by (rewrite !app_length, !ck_len, L, L'; destruct c, c'; reflexivity).
+    rewrite lex_cmp_app by (rewrite !app_length, L, L'; destruct c, c'; reflexivity).
+    rewrite lex_cmp_app by (destruct c, c'; reflexivity).
+    rewrite kh_prefix_order.
+    destruct (curve_idx c ?= curve_idx c') eqn:E; try reflexivity. simpl.
+    destruct (lex_cmp h h') eqn:F; try reflexivity. simpl.
+    apply N.compare_eq, curve_idx_inj in E. apply lex_cmp_eq in F. subst. apply lex_cmp_refl.
+  Qed.
+
+  Lemma cid_number_bound x : length x = 4%nat ->
+    nb ((cid_prefix ++ x) ++ ck (cid_prefix ++ x)) < 58 ^ 15.
+  Proof.
+    intro L. rewrite <- app_assoc, nb_app.
+    pose proof (nb_lt (x ++ ck (cid_prefix ++ x))) as X.
+    rewrite app_length, L, ck_len in *. simpl Nat.add in *.
+    assert (P : nb cid_prefix = 5722624) by (vm_compute; reflexivity).
+    assert (C : 5722625 * 256 ^ N.of_nat 8 <= 58 ^ 15) by (vm_compute; discriminate).
+    rewrite P. lia.
+  Qed.
+
+  Lemma cid_text_order x y : length x = 4%nat -> length y = 4%nat ->
+    lex_cmp (cid_text ck x) (cid_text ck y) = lex_cmp x y.
+  Proof.
+    intros L L'. unfold cid_text.
+    rewrite (b58_fixed_order 15) by (apply cid_number_bound; assumption).
+    rewrite nb_order by (rewrite !app_length, !ck_len, L, L'; reflexivity).
+    rewrite lex_cmp_app by (rewrite !app_length, L, L'; reflexivity).
+    rewrite lex_cmp_app by reflexivity. rewrite lex_cmp_refl. simpl.
+    destruct (lex_cmp x y) eqn:F; try reflexivity. simpl.
+    apply lex_cmp_eq in F. subst. apply lex_cmp_refl.
+  Qed.
+End Concrete.
